@@ -4,6 +4,7 @@ package main
 // and grammar-directed input sampling.
 
 import (
+	"strings"
 	"math/rand"
 	"strconv"
 )
@@ -539,7 +540,22 @@ func alphabetOf(g genGrammar) []byte {
 }
 
 func parseCaseSexp(g genGrammar, input []byte, extra ...*Sexp) *Sexp {
-	c := L(LA("env", g.env...), LA("root", g.root), LA("files", L(HS("f"), H(input))), LA("target", N(0)))
+	// one case in four (chosen by the input's bytes, so that a case replays exactly): the parsed file is NOT the first of
+	// its file set — a file of another length stands before it and one after it.  Nothing a parser answers may depend on
+	// the file's base offset except the absolute positions themselves (the model places the files the same way).
+	h := uint32(2166136261)
+	for _, b := range input {
+		h = (h ^ uint32(b)) * 16777619
+	}
+	h ^= uint32(len(input)) * 2654435761
+	files := []*Sexp{L(HS("f"), H(input))}
+	target := 0
+	if (h>>7)%4 == 0 {
+		before := []byte(strings.Repeat("ab\n", int((h>>11)%9)) + "a")
+		files = []*Sexp{L(HS("g"), H(before)), L(HS("f"), H(input)), L(HS("h"), HS("b"))}
+		target = 1
+	}
+	c := L(LA("env", g.env...), LA("root", g.root), LA("files", files...), LA("target", N(target)))
 	c.List = append(c.List, extra...)
 	return c
 }
